@@ -1,7 +1,7 @@
 (** src/builder/pass0.rs (macro expansion), pass1.rs (sizes, label addresses), pass2.rs (evaluation,
     encoding, emission) and builder/mod.rs (capacity check, BuildResult). *)
 Require Import AvraV.Model.Base AvraV.Model.Ast AvraV.Model.Device AvraV.Model.Eval AvraV.Model.Encode.
-Require Import AvraV.Model.Grammar AvraV.Model.Lines AvraV.Model.Display AvraV.Model.Parse AvraV.Model.Show.
+Require Import AvraV.Model.Grammar AvraV.Model.Lines AvraV.Model.Display AvraV.Model.Fs AvraV.Model.Parse AvraV.Model.Show.
 Require Import AvraV.Gen.OpTable AvraV.Gen.Devices.
 Open Scope N_scope.
 
@@ -30,10 +30,10 @@ Definition macro_expand (line : N) (name : str) (ops : list iop) (st : pstate) :
   | None => Err (Some line)
   | Some body =>
       let inner := {| segs := [{| items := []; seg_t := SCode; address := address (last_seg st) |}];
-                      macro_name := macro_name st; macros := macros st; msgs := msgs st; pcx := pcx st |} in
+                      macro_name := macro_name st; macros := macros st; msgs := msgs st; pcx := pcx st; fl := fl_empty |} in
       let ls := substitute ops body in
       do r <- parse_iter fuel include_file (S (length ls)) ls false inner;
-      Ok ({| segs := segs st; macro_name := macro_name r; macros := macros r; msgs := msgs r; pcx := pcx r |},
+      Ok ({| segs := segs st; macro_name := macro_name r; macros := macros r; msgs := msgs r; pcx := pcx r; fl := fl st |},
           non_empty (segs r))
   end.
 
@@ -305,7 +305,7 @@ Record build_result := {
 
 Definition build_from_parsed (fuel : nat) (include_file : str -> pstate -> res pstate) (st : pstate) : res build_result :=
   let parsed := non_empty (segs st) in
-  let st0 := {| segs := []; macro_name := []; macros := []; msgs := msgs st; pcx := pcx st |} in
+  let st0 := {| segs := []; macro_name := []; macros := []; msgs := msgs st; pcx := pcx st; fl := fl_empty |} in
   do s0 <- pass0 fuel include_file (macros st) 64 parsed st0;
   do r1 <- pass1 (pcx s0) (non_empty (segs s0));
   do r2 <- pass2 fuel (p1_ctx r1) (p1_segs r1);
@@ -321,5 +321,7 @@ Definition no_include (path : str) (st : pstate) : res pstate := Err None.
 (** builder::build_str, without file inclusion (Model/Fs.v adds it) *)
 Definition build_str (fuel : nat) (src : str) : res build_result :=
   let ls := number_from 0 (split_lines src) in
-  do st <- parse_iter fuel no_include (S (length ls)) ls false (pstate_new (ctx_new default_device));
+  (* parse_str: current_path is the working directory (only its having a parent matters without files) *)
+  let st0 := with_fl (pstate_new (ctx_new default_device)) {| cur_path := [CRoot; CNorm (lit "cwd")]; ipaths := [] |} in
+  do st <- parse_iter fuel no_include (S (length ls)) ls false st0;
   build_from_parsed fuel no_include st.
